@@ -570,4 +570,27 @@ pub struct ServerPool {'''),
             }
         }
     }'''),
+    # ------------------------------------------------------------------ C04
+    dict(id="c04-max-size-doubled", prop="C04", file="src/pool.rs", expect="C04-R1",
+         what="bb8 max_size is twice the configured pool_size",
+         old='''                            .max_size(user.pool_size)''', new='''                            .max_size(user.pool_size * 2)'''),
+    dict(id="c04-guard-forgotten", prop="C04", file="src/client.rs", expect="C04-R",
+         what="the guard is forgotten instead of dropped on release (connection never returns to the pool)",
+         old='''            self.release();
+            self.stats.idle();
+        }
+    }''', new='''            self.release();
+            self.stats.idle();
+            std::mem::forget(reference);
+        }
+    }'''),
+    dict(id="c04-failed-checkout-disconnects", prop="C04", file="src/client.rs", expect="C04-R4",
+         what="a failed checkout ends the session",
+         old='''                    checkout_failure_count += 1;
+                    if let Some(limit) = pool.settings.checkout_failure_limit {''',
+         new='''                    checkout_failure_count += 1;
+                    if checkout_failure_count > 0 {
+                        return Err(err);
+                    }
+                    if let Some(limit) = pool.settings.checkout_failure_limit {'''),
 ]
